@@ -101,7 +101,8 @@ let run_line lineno line =
          | None -> "\"ok\":false"
          | Some c ->
            let chk = if flags land 8 <> 0 then
-               Printf.sprintf "\"feasible\":%b,\"oriented\":%b," (Model.vertices_feasible g sites c) (Model.duals_oriented c)
+               Printf.sprintf "\"feasible\":%b,\"oriented\":%b,\"regular\":%b," (Model.vertices_feasible g sites c) (Model.duals_oriented c)
+                 (Model.build_regularb dim g sites Big_int_Z.zero_big_int (Model.cell_init lo hi))
              else "" in
            "\"ok\":true," ^ chk ^ cell_json dim g flags c in
        let body_all =
